@@ -10,6 +10,7 @@
                         target is not singleton; broadcast_arrays = align_dims -> _get_axes (alignment check) -> broadcast on every array
   R4 axes as objects    results are built from the source's Axis objects / copies, never from re-derived labels; metadata carried
 """
+import ast
 from .. import terms as T
 from ..terms import const
 from ..rules import P_, run, ret_paths, raise_paths, exc_name, bind_call_args, default_of
@@ -460,6 +461,79 @@ def rule_broadcast(ctx):
         ctx.holds('R3', '_get_axes raises for non-singleton axes that differ from the common one')
     else:
         ctx.violated('R3', fi, '_get_axes', '_get_axes must raise ValueError when a non-singleton axis differs from the common axis of that name')
+    rule_common_axis_choice(ctx, fi)
+
+
+def rule_common_axis_choice(ctx, fi):
+    """_get_axes picks, per dimension, the axis every array is broadcast onto: a decision table of its update test over the kinds of the axis chosen so far
+    (none yet / None placeholder of an inserted dimension / one real label / empty / several labels) and of the next array's axis. Required: the first axis is
+    taken; a placeholder gives way to any real axis (whatever its length, so that the result does not depend on the argument order); a single label gives way
+    to several; a real axis never gives way to a placeholder, several labels never to one."""
+    from ..rules import expr_term, val_eval, UNKNOWN
+    test = None
+    for node in ast.walk(fi.node):
+        if isinstance(node, ast.If) and any(isinstance(b, ast.Assign) and len(b.targets) == 1 and isinstance(b.targets[0], ast.Name) and isinstance(b.value, ast.Name)
+                                            for b in node.body):
+            for b in node.body:
+                if isinstance(b, ast.Assign) and isinstance(b.value, ast.Name) and isinstance(b.targets[0], ast.Name):
+                    test = (node, b.targets[0].id, b.value.id)
+    if test is None:
+        ctx.undecide('R3', '_get_axes: the update `if <test>: common_axis = axis` was not found')
+        return
+    node, cname, aname = test
+    t = expr_term(ctx, fi, node.test)
+    C, A = ('name', cname), ('name', aname)
+    kinds = {'placeholder': (1, None), 'one label': (1, 's'), 'empty': (0, UNKNOWN), 'several labels': (3, 'p')}
+
+    def env_of(ck, ak):
+        env = {}
+        if ck == 'none yet':
+            env[C] = None
+        else:
+            size, first = kinds[ck]
+            env[('attr', C, 'size')] = size
+            env[('call', ('name', 'len'), (C,), ())] = size
+            if first is not UNKNOWN:
+                env[('sub', ('attr', C, 'values'), const(0))] = first
+        size, first = kinds[ak]
+        env[('attr', A, 'size')] = size
+        env[('call', ('name', 'len'), (A,), ())] = size
+        if first is not UNKNOWN:
+            env[('sub', ('attr', A, 'values'), const(0))] = first
+        return env
+
+    class _Obj(object):
+        pass
+    want = {}
+    for ak in kinds:
+        want[('none yet', ak)] = True
+    for ak in ('one label', 'empty', 'several labels'):
+        want[('placeholder', ak)] = True
+    want[('one label', 'several labels')] = True
+    for ck in ('one label', 'empty', 'several labels'):
+        want[(ck, 'placeholder')] = False
+    want[('several labels', 'one label')] = False
+    bad = None
+    n = 0
+    for (ck, ak), w in sorted(want.items()):
+        env = env_of(ck, ak)
+        if ck != 'none yet':
+            env[C] = _Obj()             # an object that is not None
+        got = val_eval(t, env)
+        n += 1
+        if got is UNKNOWN:
+            ctx.undecide('R3', '_get_axes: update test %s not evaluable for (%s, %s)' % (T.show(t)[:80], ck, ak))
+            return
+        if bool(got) != w and bad is None:
+            bad = (ck, ak, bool(got))
+    if bad is not None:
+        ck, ak, got = bad
+        ctx.violated('R3', fi, 'common axis: %s then %s' % (ck, ak), 'when the axis chosen so far is "%s" and the next array brings "%s", the common axis is %s but must %s: '
+                     'broadcast_arrays(x, y) with y owning a labelled size-1 (or empty) dimension that x lacks labels x\'s new dimension with the None placeholder of '
+                     'align_dims instead of y\'s label - the two results differ and depend on the argument order' % (ck, ak, 'replaced' if got else 'kept', 'be kept' if got else 'be replaced'),
+                     node=node)
+    else:
+        ctx.holds('R3', '_get_axes: common-axis choice table (%d cases): placeholder gives way to any real axis, one label to several' % n)
 
 
 def rule_axes_objects(ctx):
